@@ -266,11 +266,11 @@ def rule_e(ctx: Context, R: Reporter, gc: ClassInfo, hc: ClassInfo):
 def run(ctx: Context, R: Reporter):
     hc = hier_class(ctx)
     gc = gmm_class(ctx, hc)
-    rule_a(ctx, R, hc)
-    rule_b(ctx, R, hc)
-    rule_c(ctx, R, hc)
-    rule_d(ctx, R, gc)
-    rule_e(ctx, R, gc, hc)
+    R.guard(rule_a, ctx, R, hc)
+    R.guard(rule_b, ctx, R, hc)
+    R.guard(rule_c, ctx, R, hc)
+    R.guard(rule_d, ctx, R, gc)
+    R.guard(rule_e, ctx, R, gc, hc)
 
 
 def variants():
